@@ -74,9 +74,15 @@ HdrTok(x)     == CASE x.l \in {"shorthdr", "hv"} -> "short" [] x.l = "nohdr" -> 
 \* gRPC: the status the server returns / what happens to the call
 \* codes.Code is the uint32 of the grpc-status trailer: the peer may send values outside the canonical 0..16
 GrpcCodes   == 0..16 \cup {17, 42, 2147483647}
-GrpcLetters == {[l |-> "code", code |-> c] : c \in GrpcCodes} \cup {Plain("gbig"), Plain("gtoobig"), Plain("gslow"), Plain("gkill")}
+\* "gempty": status OK, the reply message is empty (no field set); "ggarbage": status OK, the message bytes cannot be
+\* decoded; "gkillmid": the response headers arrive, then the connection is closed (the stream ends in the middle).
+\* (Trailers-only responses are what every error code letter is: the server answers an error without headers or message.)
+GrpcLetters == {[l |-> "code", code |-> c] : c \in GrpcCodes}
+               \cup {Plain("gbig"), Plain("gtoobig"), Plain("gslow"), Plain("gkill"), Plain("gempty"), Plain("ggarbage"), Plain("gkillmid")}
                \cup {Plain(l) : l \in AvailLetters}
-GrpcOK(x)   == (x.l = "code" /\ x.code = 0) \/ x.l = "gbig"
+GrpcOK(x)   == (x.l = "code" /\ x.code = 0) \/ x.l \in {"gbig", "gempty"}
+\* the reply message carries the greeting the grpc/scenario runs assert on
+GrpcGreets(x) == GrpcOK(x) /\ x.l # "gempty"
 
 \* ---------------------------------------------------------------- postprocessors of step "a" of a scenario gun
 Posts == {"none", "jsonpath", "header_substr", "xpath", "assert", "all"}
@@ -146,7 +152,10 @@ HttpScenOutcome(x, p) ==
 GrpcOutcome(x) == IF GrpcOK(x) THEN Smp(200, FALSE, FALSE) ELSE Smp(GE400, FALSE, FALSE)
 \* grpc/scenario: a has assert/response(status_code 200, payload ["Hello"]); a failed assertion ends the shot,
 \* its sample carries the received code
-GrpcScenOutcome(x) == IF GrpcOK(x) THEN <<Smp(200, FALSE, FALSE), Smp(200, FALSE, FALSE)>> ELSE <<Smp(GE400, FALSE, FALSE)>>
+\* (an OK reply without the greeting fails the payload assertion: the sample keeps the code 200, the shot ends)
+GrpcScenOutcome(x) == IF GrpcGreets(x) THEN <<Smp(200, FALSE, FALSE), Smp(200, FALSE, FALSE)>>
+                      ELSE IF GrpcOK(x) THEN <<Smp(200, FALSE, FALSE)>>
+                      ELSE <<Smp(GE400, FALSE, FALSE)>>
 
 Outcome(gun, x, p) ==
     CASE gun \in {"http", "https", "http2", "connect"} -> <<HttpOutcome(x)>>
